@@ -144,6 +144,37 @@ fn xcr0_valid(f: u64) -> bool {
     x87 && (!avx || sse) && (mpx == 0 || mpx == 0x18) && (a512 == 0 || (a512 == 0xe0 && avx))
 }
 
+/// What a user sees of a DR7 value: the flags and the four condition / length fields through the decoded
+/// accessors (encodings per SDM vol.3 18.2.4: LEN 00 = 1 byte, 01 = 2, 10 = 8, 11 = 4). "Never lose bits"
+/// is judged on this view as well as on `bits()`: a read whose accessors disagree with the register content
+/// has lost the field for the caller.
+fn dr7_decode(v: &Dr7Value) -> u64 {
+    use x86_64::registers::debug::{BreakpointCondition as C, BreakpointSize as S, DebugAddressRegisterNumber as N};
+    let mut out = v.flags().bits();
+    for n in 0..4u8 {
+        let r = N::new(n).unwrap();
+        let c = match v.condition(r) { C::InstructionExecution => 0u64, C::DataWrites => 1, C::IoReadsWrites => 2, C::DataReadsWrites => 3 };
+        let l = match v.size(r) { S::Length1B => 0u64, S::Length2B => 1, S::Length8B => 2, S::Length4B => 3 };
+        out |= c << (16 + 4 * n) | l << (18 + 4 * n);
+    }
+    assert_eq!(out, v.bits(), "Dr7Value: decoded accessors (flags/condition/size) disagree with bits()");
+    out
+}
+
+/// The same value built the way a user builds it: flags, then the setters of the eight fields.
+fn dr7_compose(a: u64) -> Dr7Value {
+    use x86_64::registers::debug::{BreakpointCondition as C, BreakpointSize as S, DebugAddressRegisterNumber as N, Dr7Flags};
+    let mut v = Dr7Value::from(Dr7Flags::from_bits(a & !0xffff_0000).expect("valid dr7 flag bits"));
+    for n in 0..4u8 {
+        let r = N::new(n).unwrap();
+        v.set_condition(r, [C::InstructionExecution, C::DataWrites, C::IoReadsWrites, C::DataReadsWrites][((a >> (16 + 4 * n)) & 3) as usize]);
+        v.set_size(r, [S::Length1B, S::Length2B, S::Length8B, S::Length4B][((a >> (18 + 4 * n)) & 3) as usize]);
+    }
+    assert_eq!(v.bits(), a, "Dr7Value composed from flags and field setters");
+    assert_eq!(Dr7Value::from_bits(a).map(|x| x.bits()), Some(a), "Dr7Value::from_bits");
+    v
+}
+
 macro_rules! flag_reg {
     ($what:expr, $reg:expr, $modelled:expr, $prior:expr, $arg:expr, $raw:expr, $step:expr,
      read: $read:expr, read_raw: $read_raw:expr, write: $write:expr, write_raw: $write_raw:expr, update: $update:expr,
@@ -240,9 +271,9 @@ fn flag_case(c: &FlagCase, obs: &mut Obs) -> CaseResult {
             update: |a: u64, seen: &std::cell::Cell<u64>, calls: &std::cell::Cell<u32>| unsafe { XCr0::update(|f| { seen.set(f.bits()); calls.set(calls.get() + 1); *f = XCr0Flags::from_bits_retain(f.bits() ^ a); }) },
             valid: xcr0_valid, obs: obs),
         _ => flag_reg!("Dr7", Reg::Dr(7), DR7_MODELLED, prior, arg, raw, step,
-            read: || Dr7::read().bits(), read_raw: || Dr7::read_raw(),
-            write: |a| Dr7::write(Dr7Value::from_bits(a).expect("valid dr7 bits")), write_raw: |v| Dr7::write_raw(v),
-            update: |a: u64, seen: &std::cell::Cell<u64>, calls: &std::cell::Cell<u32>| Dr7::update(|f| { seen.set(f.bits()); calls.set(calls.get() + 1); *f = Dr7Value::from_bits(f.bits() ^ a).expect("valid"); }),
+            read: || dr7_decode(&Dr7::read()), read_raw: || Dr7::read_raw(),
+            write: |a| Dr7::write(dr7_compose(a)), write_raw: |v| Dr7::write_raw(v),
+            update: |a: u64, seen: &std::cell::Cell<u64>, calls: &std::cell::Cell<u32>| Dr7::update(|f| { seen.set(dr7_decode(f)); calls.set(calls.get() + 1); *f = dr7_compose(f.bits() ^ a); }),
             valid: |_| true, obs: obs),
     }
     cpu().reset();
@@ -871,7 +902,7 @@ pub fn run(run: &mut Run) {
     let n = run.cases(500_000, 20_000_000);
     run.sub(
         "flagregs",
-        "(Cr0|Cr4|Efer|XCr0|Dr7) x prior 64-bit content (edge-biased) x argument bits x one of read/read_raw/write/write_raw/update; oracle: trap log touches only that architectural register (CR number / MSR index / DR number / XCR 0 typed in from the manuals), typed read = modelled bits of prior, typed write stores (prior & !modelled) | arg with exactly one write, raw write stores the value, update = read-modify-write with the closure called once, typed read after typed write returns the argument, XCr0 invalid combinations panic with an empty write log; non-trivial = prior has an unmodelled bit set and the argument differs from the prior in a modelled bit; distinct by (register, prior, arg, step)",
+        "(Cr0|Cr4|Efer|XCr0|Dr7) x prior 64-bit content (edge-biased) x argument bits x one of read/read_raw/write/write_raw/update; oracle: trap log touches only that architectural register (CR number / MSR index / DR number / XCR 0 typed in from the manuals), typed read = modelled bits of prior, typed write stores (prior & !modelled) | arg with exactly one write, raw write stores the value, update = read-modify-write with the closure called once, typed read after typed write returns the argument, Dr7 values are read through the decoded accessors (flags(), condition(n), size(n); SDM encodings) and written as composed by the field setters, both of which must agree with bits(), XCr0 invalid combinations panic with an empty write log; non-trivial = prior has an unmodelled bit set and the argument differs from the prior in a modelled bit; distinct by (register, prior, arg, step)",
         n,
         (0u8..5, u64_edge(), prop_oneof![any::<u64>(), u64_edge()], u64_edge(), 0u8..5),
         flag_case,
